@@ -10,7 +10,7 @@
    frame [top_call]/[top_create] ever start.  [reachable (step (run d) c) (init_frame w gas) f]:
    f is a state the interpreter loop of that frame passes through. *)
 From GV Require Import Lib.Tactics Lib.Bytes EVM.Word256 EVM.Memory EVM.MemoryProofs EVM.Gas EVM.State.
-From GV Require Import EVM.Instr EVM.Step EVM.Interp EVM.InterpProofs EVM.Forks.
+From GV Require Import EVM.StateProofs EVM.Instr EVM.Step EVM.Interp EVM.InterpProofs EVM.RefundProofs EVM.Forks.
 Local Open Scope N_scope.
 
 (* run_total: with fuel exponent fuel_bound gas = bitlength(gas+1) per frame and 1026
@@ -65,7 +65,7 @@ Print Assumptions C27_stack_bounded.
    the fee recorded as paid is exactly the fee of that size (3w + w^2/512), and it was
    really deducted: gas left + fee paid <= gas given to the frame.  Together with
    C27_mem_access_checked (an access beyond the size is an explicit failure of the
-   accessor) and C27_no_exception_value_partial (that failure never happens) this is:
+   accessor) and C27_no_exception_value (that failure never happens) this is:
    every byte read or written lies below the size for which expansion gas was charged. *)
 Theorem C27_memory_paid : forall d c w gas f,
   1026 <= c_depth c + N.of_nat (S d) ->
@@ -82,28 +82,61 @@ Theorem C27_mem_access_checked : forall m off size v,
 Proof. intros; split; [apply mem_read_none | apply mem_write_none]. Qed.
 Print Assumptions C27_mem_access_checked.
 
-(* no_exception_value.  FULL statement: the result status is S_Ok, S_Revert or one of
-   the EVM's exceptional halts — never S_Fault k (a Go panic or fuel exhaustion).
-   PROVED PART: k can only be F_RefundUnderflow (StateDB.SubRefund below zero); the faults
-   F_OutOfFuel, F_MemOOB (memory access outside the store) and F_StackShape (stack shorter
-   than the stack table guarantees) are excluded for every input.  MISSING: excluding
-   F_RefundUnderflow needs the SSTORE invariant "refund counter >= 4800 * number of slots
-   with original <> 0 and current = 0" across calls and reverts, which is not proved. *)
-Theorem C27_no_exception_value_partial_call : forall e w pcs to value input gas k,
+(* no_exception_value: the result status is S_Ok, S_Revert or one of the EVM's own
+   exceptional halts, never S_Fault k (what would be a Go panic: memory access outside
+   the store, stack shorter than the stack table promised, StateDB.SubRefund below zero;
+   or exhaustion of the model's fuel).  Guard: the "committed" storage the SSTORE
+   metering reads is the storage at the start of the transaction (e_orig e = w_accounts w)
+   — what StateDB.GetCommittedState is; for an inner frame the guard is the refund-counter
+   invariant itself (refund counter >= 4800 per slot with original <> 0 and current = 0),
+   which every frame also re-establishes for its caller (across calls, creates, reverts
+   to a snapshot and SELFDESTRUCT). *)
+Theorem C27_no_exception_value_call : forall e w pcs to value input gas,
+  e_orig e = w_accounts w ->
+  forall k, t_status (top_call e w pcs to value input gas) <> S_Fault k.
+Proof. exact no_exception_value_call_full. Qed.
+Print Assumptions C27_no_exception_value_call.
+
+Theorem C27_no_exception_value_create : forall e w pcs value init gas,
+  e_orig e = w_accounts w ->
+  forall k, t_status (top_create e w pcs value init gas) <> S_Fault k.
+Proof. exact no_exception_value_create_full. Qed.
+Print Assumptions C27_no_exception_value_create.
+
+Theorem C27_no_exception_value_frame : forall d c w gas,
+  (1 <= d)%nat -> 1026 <= c_depth c + N.of_nat d ->
+  refund_inv (orig_storage (c_env c)) w ->
+  (forall k, r_status (run d c w gas) <> S_Fault k) /\
+  refund_inv (orig_storage (c_env c)) (r_w (run d c w gas)).
+Proof. exact no_exception_value_frame_full. Qed.
+Print Assumptions C27_no_exception_value_frame.
+
+(* the refund-counter invariant holds in every reachable state of every frame *)
+Theorem C27_refund_counter_invariant : forall d c w gas f,
+  1026 <= c_depth c + N.of_nat (S d) ->
+  refund_inv (orig_storage (c_env c)) w ->
+  reachable (step (run d) c) (init_frame w gas) f ->
+  refund_inv (orig_storage (c_env c)) (f_w f).
+Proof. exact reachable_refund_inv. Qed.
+Print Assumptions C27_refund_counter_invariant.
+
+(* without any guard on the state: every fault other than the refund underflow is
+   excluded for arbitrary (even inconsistent) committed storage *)
+Theorem C27_no_fault_except_refund_call : forall e w pcs to value input gas k,
   t_status (top_call e w pcs to value input gas) = S_Fault k -> k = F_RefundUnderflow.
 Proof. exact no_exception_value_call. Qed.
-Print Assumptions C27_no_exception_value_partial_call.
+Print Assumptions C27_no_fault_except_refund_call.
 
-Theorem C27_no_exception_value_partial_create : forall e w pcs value init gas k,
+Theorem C27_no_fault_except_refund_create : forall e w pcs value init gas k,
   t_status (top_create e w pcs value init gas) = S_Fault k -> k = F_RefundUnderflow.
 Proof. exact no_exception_value_create. Qed.
-Print Assumptions C27_no_exception_value_partial_create.
+Print Assumptions C27_no_fault_except_refund_create.
 
-Theorem C27_no_exception_value_partial_frame : forall d c w gas k,
+Theorem C27_no_fault_except_refund_frame : forall d c w gas k,
   (1 <= d)%nat -> 1026 <= c_depth c + N.of_nat d ->
   r_status (run d c w gas) = S_Fault k -> k = F_RefundUnderflow.
 Proof. exact no_exception_value_frame. Qed.
-Print Assumptions C27_no_exception_value_partial_frame.
+Print Assumptions C27_no_fault_except_refund_frame.
 
 (* the hypotheses are met by a concrete run: PUSH1 1 PUSH1 2 ADD PUSH1 0 MSTORE PUSH1 32
    PUSH1 0 RETURN at address 0x1000 returns the word 3 for 24 gas, and the state after
@@ -115,10 +148,11 @@ Example C27_nonvacuous :
   let r := top_call e w cancun_precompiles 4096 0 [] 100000 in
   let w0 := prepare e w (Some 4096) cancun_precompiles in
   let c := new_ctx e 4096 1 0 [] code false 1 in
+  e_orig e = w_accounts w /\
   (t_status r = S_Ok /\ t_ret r = word_bytes 3 /\ t_gas r = 99976) /\
   1026 <= c_depth c + N.of_nat (S 1025) /\
   reachable (step (run 1025) c) (init_frame w0 100000) (mk_frame 2 [1] mem_empty 99997 [] w0).
 Proof.
-  cbv zeta. split; [vm_compute; auto|]. split; [vm_compute; discriminate|].
+  cbv zeta. split; [reflexivity|]. split; [vm_compute; auto|]. split; [vm_compute; discriminate|].
   eapply reach_next; [apply reach_init|]. vm_compute. reflexivity.
 Qed.
